@@ -16,8 +16,8 @@ def bounded(tier, seed, fallback_for):
 
 MANIFEST = {
     "category": "exploration",
-    "technique": "bounded stand-in: the statement evaluated on generated program texts through the real lexers and pipeline (contract-based proof of the pipeline functions where listed in evidence)",
-    "text": 'The marker semantics is checked on canonical programs (bounded).',
-    "note": 'bounded; Pygments assumed',
+    "technique": "contracts on the real pipeline functions discharged by z3/cvc5 (pyvc); bounded stand-in on generated program texts through the real lexers for the whole statement",
+    "text": 'Discharged for all inputs: filter_nocl_comment_tokens returns exactly the comments that begin, after their leader and case-insensitively, with nocl, in order; _filter_nocl_scopes omits exactly the scopes with such a comment on the line of their name. Independence ("changes nothing else") is explored (bounded): marker spellings, comments that merely mention the marker, marking every flat function of 60 structured sketches per language.',
+    "note": 'bounded for the independence clause (goes through build_scopes); Pygments assumed',
     "design_ref": "DESIGN.md §6 C17",
 }
